@@ -52,7 +52,7 @@ ASSUMPTIONS = ['tile coordinates and levels are non-negative',
                'all addresses of one cache use the same dimension keys (lower case, distinct); values are arbitrary text',
                'quadkey layout: x, y < 2^z and no dimensions; arcgis layout: no dimensions (finding F4 otherwise)',
                'sqlite / compact back-ends: no dimensions (the configuration loader refuses dimension layers there)',
-               'bulk load requests do not name the same address twice (sqlite back-ends: finding F18 otherwise)',
+               'bulk load requests do not name the same address twice (sqlite back-ends: finding C05-dup otherwise)',
                'every operation is given fresh Tile objects; no concurrent writers (C06/C07/C08 cover those)']
 EXPLANATION = ('refinement to the abstract map proved per back-end model for all histories; generated path / slot / '
                'batching definitions; real back-ends driven through colliding histories and compared in Coq')
@@ -65,7 +65,7 @@ COMPACT_KINDS = ['compact1', 'compact2']
 
 SIG_F4_DIMS = 'file,layout=%s,dimensions-ignored'
 SIG_F4_QUAD = 'file,layout=quadkey,collision-outside-quad-range'
-SIG_F18 = '%s,bulk-load,repeated-address'
+SIG_DUP = '%s,bulk-load,repeated-address'
 
 
 # ----------------------------------------------------------------------------- payloads
@@ -372,7 +372,7 @@ def oracle(ctx, pay, cfg, ops, outs, origin):
         if g and g[0] != 'raised':
             sig = explain_f4(cfg, ops, i)
             if sig is None and cfg['kind'] in SQL_KINDS and has_repeated_bulk_load(ops[i]):
-                sig = SIG_F18 % cfg['kind']
+                sig = SIG_DUP % cfg['kind']
         if sig is None:
             sig = classify(cfg, ops, i, e, g)
         # minimal replay: the operations that touch the addresses of op i
@@ -676,11 +676,11 @@ def f4_probes():
     return out
 
 
-def f18_probes():
+def dup_probes():
     out = []
     for k in SQL_KINDS:
         out.append(({'kind': k}, [('store', (1, 2, 3, ()), 6), ('load_many', [(1, 2, 3), (1, 2, 3)], ())],
-                    'probe:F18-repeated-address'))
+                    'probe:C05-dup-repeated-address'))
     return out
 
 
@@ -787,7 +787,7 @@ def run(ctx):
     for cfg, ops, origin in corpus_cases(ctx):
         todo.append((cfg, ops, origin))
     todo += f4_probes()
-    todo += f18_probes()
+    todo += dup_probes()
 
     cfgs = all_configs()
     # 2. bounded exhaustive short histories over three colliding addresses (each from the empty state of the
